@@ -96,6 +96,95 @@ def compare(chk, items, tag):
                               {'kind': 'wrong-value'})
 
 
+BIGLITS = [2 ** 53 + 1, 2 ** 64 - 1, 2 ** 63, 10 ** 18 + 9, 3, 7, 2, 1, 2 ** 32 + 1, 49, 0xFFFFFFFFFFFFFFFE, 0, 6700417, 2 ** 53, 0x20000000000001 * 3]
+
+
+def limbs(n):
+    out = []
+    while n:
+        out.append(n & 32767)
+        n >>= 15
+    return out
+
+
+def big_gen(rng, d):
+    if d == 0 or rng.random() < 0.3:
+        return [('n', rng.choice(BIGLITS))]
+    c = rng.random()
+    if c < 0.15:
+        return ([('-', 0)] + big_gen(rng, d - 1)) if rng.random() < 0.5 else ([('-', 0), ('(', 0)] + big_gen(rng, d - 1) + [(')', 0)])
+    if c < 0.3:
+        return [('(', 0)] + big_gen(rng, d - 1) + [(')', 0)]
+    return big_gen(rng, d - 1) + [(rng.choice('+-*/'), 0)] + big_gen(rng, d - 1)
+
+
+def big_text(toks, style):
+    def num(v):
+        return str(v) if style % 3 == 0 else (f'${v:x}' if style % 3 == 1 else f'0x{v:X}')
+    return ' '.join(num(v) if t == 'n' else t for t, v in toks)
+
+
+def big_batch(args):
+    seed, n = args
+    runner.import_repo()
+    from bespokeasm.expression import parse_expression
+    from bespokeasm.assembler.line_identifier import LineIdentifier
+    lid = LineIdentifier(1, 'big')
+    rng = random.Random(seed)
+    out = []
+    for i in range(n):
+        toks = big_gen(rng, rng.choice([2, 3, 3, 4]))
+        tx = big_text(toks, i)
+        try:
+            with runner.watchdog(20.0):
+                v = parse_expression(lid, tx).get_value(None, lid)
+            ok = True
+        except BaseException:
+            v, ok = 0, False
+        out.append({'toks': [{'t': t, 'm': limbs(val) if t == 'n' else []} for t, val in toks], 'v': {'neg': v < 0, 'm': limbs(abs(v))},
+                    'ok': ok, 'text': tx, 'value': v})
+    return out
+
+
+def big_part(chk, n_total):
+    import json
+    import os
+    import tempfile
+    recs = []
+    for r in runner.pmap(big_batch, [(chk.seed * 77 + i, n_total // 16) for i in range(16)], chunksize=1):
+        recs.extend(r)
+    slim = [{k: r[k] for k in ('toks', 'v', 'ok')} for r in recs]
+    good = next((i for i, r in enumerate(recs) if r['ok'] and r['value'] > 5), None)
+    bad_idx = None
+    if good is not None:
+        bad = json.loads(json.dumps(slim[good]))
+        bad['v']['m'] = limbs(recs[good]['value'] + 1)
+        slim.append(bad)
+        bad_idx = len(slim)
+    fd, path = tempfile.mkstemp(prefix='vbig_', suffix='.json', dir=runner.SCRATCH_ROOT)
+    with os.fdopen(fd, 'w') as f:
+        json.dump(slim, f)
+    try:
+        res = tlc.run_tlc('BigExpr', 'SPECIFICATION Spec\nINVARIANT Accepted\n', workers=16, env={'TRACE_FILE': path}, timeout=3000)
+    finally:
+        os.unlink(path)
+    chk.add_tlc(res)
+    acc = {a['t'] for a in res.tags.get('ACC', [])}
+    if bad_idx is not None and bad_idx in acc:
+        chk.machinery('BigExpr accepted a record whose value was changed by one')
+    for i, r in enumerate(recs, start=1):
+        chk.traces += 1
+        chk.nontriv(('big', r['text']))
+        if i not in acc:
+            chk.violation(f'"{r["text"]}" {"evaluates to " + str(r["value"]) if r["ok"] else "is rejected"}: not the exact quotient arithmetic truncated toward zero (BigExpr.tla)',
+                          {'expr': r['text']}, 'BigExpr.RecOk', r['value'] if r['ok'] else 'rejected', {'kind': 'big'})
+    chk.notes['big_values'] = {'records': len(recs), 'rejected_by_implementation': sum(1 for r in recs if not r['ok']),
+                               'off_by_one_record_rejected': bad_idx is not None and bad_idx not in acc}
+    ex = [r for r in recs if r['ok'] and abs(r['value']) > 2 ** 60]
+    if ex:
+        chk.sample({'instance': 'big values (limb arithmetic)', 'text': ex[0]['text'], 'value': ex[0]['value']})
+
+
 def run(chk):
     quick = chk.tier == 'quick'
     rng = random.Random(chk.seed + 7)
@@ -105,7 +194,7 @@ def run(chk):
                 '(only viable prefixes, hence all well-formed expressions) to greater length over three alphabets covering every '
                 'operator, unary minus, LSB/BYTEn, labels, junk. spec/Literals.tla enumerates digit strings in every notation. '
                 'Each emitted string is spelled (spaced and compact) and evaluated by the real parse_expression/get_value; a '
-                'sample goes end to end through .4byte into the image. Non-trivial = distinct text with a numeric expected value.')
+                'sample goes end to end through .4byte into the image. spec/BigExpr.tla checks seeded random expressions over 64-bit literals (+ - * / unary minus, parentheses) evaluated by the real code: exact rational value by limb arithmetic, truncation toward zero by |v|*d <= |n| < (|v|+1)*d. Non-trivial = distinct text with a numeric expected value.')
     chk.assumptions = ['% with a negative operand, shifts/bitwise on non-integers or negatives, negative shift counts are left open (skipped)',
                        'values beyond 2^24 in the model are not compared (counted as skipped)',
                        '% is always written with blanks around it (lexically ambiguous with the %binary notation)']
@@ -155,6 +244,8 @@ def run(chk):
         if o != want:
             chk.violation(f'.4byte {tx}: image {o}, expected {want}', {'config': carrier_yaml(), 'files': {'main.asm': f'.4byte {tx}\n'}}, want, o,
                           {'kind': 'e2e'})
+    # values of 53..200 bits: exact quotients and truncation checked with limb arithmetic
+    big_part(chk, 3200 if quick else 64000)
     chk.exhaustive = True
 
 
